@@ -108,6 +108,15 @@ fn make(variant: &str) -> Option<Option<Box<dyn DynSkein>>> {
                 8256 => mk!($ty, Sum<U8192, U64>),
                 16512 => mk!($ty, Sum<U16384, U128>),
                 33024 => mk!($ty, Sum<U32768, U256>),
+                // output sizes that ALIAS a standard size when the byte or bit count is narrowed (rule 20 for the
+                // type-level parameter): N = 256 + n (N as u8 = n), N = 8192 + n (N*8 as u16 = n*8), N = 65536 + n
+                288 => mk!($ty, Sum<U256, U32>),
+                320 => mk!($ty, Sum<U256, U64>),
+                8208 => mk!($ty, Sum<U8192, U16>),
+                8224 => mk!($ty, Sum<U8192, U32>),
+                8320 => mk!($ty, Sum<U8192, U128>),
+                65568 => mk!($ty, Sum<U65536, U32>),
+                65600 => mk!($ty, Sum<U65536, U64>),
                 _ => return None,
             }
         };
